@@ -25,8 +25,8 @@ for p in props:
         c = CLAIMS[pid]
         checks.append({
             "property_id": pid,
-            "quick_cmd": f"./check {pid} --tier quick",
-            "thorough_cmd": f"./check {pid} --tier thorough",
+            "quick_cmd": f"./check {pid} --tier quick {c.get('flags', '')}".strip(),
+            "thorough_cmd": f"./check {pid} --tier thorough {c.get('flags_thorough', c.get('flags', ''))}".strip(),
             "evidence_file": f"evidence/{pid}.json",
             "replay_cmd_template": "./check --replay {path}",
             "engine": "vx",
